@@ -75,6 +75,10 @@ CLAIMED = {
    text="All 1,720 wowm blocks of the 1,437 documentation pages and all 2,057 generated Rust doc comments are parsed back and must equal the source object their link names (kind, name, opcode, base type, enumerators and values, member order, types, upcasts, arrays, constants, if / else-if / else conditions, optional blocks); the 1,686 body tables must list exactly the definition's members in order with the size/endianness of fixed-width built-ins; the byte groups of the 175 documented examples must concatenate to the bytes of a wowm test of that definition (plain prefix for compressed payloads) with top-level field comments in definition order.",
    note="prose, links' targets on the web and per-member comments are not compared; decompressed payloads in examples are not inflated; two genuine defects of the artefacts are known findings (13 stale pages, SizedCString example line)",
    ref="§3 C18"),
+ "C10": dict(level="other", tech="type-level conformance: JSON shape grammar read off the derive-expanded Serialize impls (typed HIR, resolved value types, constructor presence analysis of Option fields) checked against the JSON Typedef schema + injectivity / name rule on enum-to-enum conversions",
+   text="For the 45 serialised types reachable from IrObjects (277 value positions) every property the serializer can emit is declared in the schema with a compatible type, every required schema property is always emitted, skippable properties are optional, Option values are nullable unless the constructor analysis shows they are always Some or never emitted at that position, unit-enum strings and discriminator mappings cover exactly the variants (both directions); enum-to-enum conversions of the IR printer are injective and keep same-named variants. This decides schema validity of the IR for every input program, which validating one emitted file cannot.",
+   note="serde_json and RFC 8927 semantics are trusted; that the IR describes the 2,050 objects faithfully needs the emitted file (the committed one is an empty placeholder; producing it means running the generator) and is not decided",
+   ref="§3 C10"),
 }
 NA_REASONS = {}
 DEFAULT_NA = "check under construction in this round (see DESIGN.md); will be claimed once its rule module is committed"
